@@ -29,6 +29,7 @@ CONFIGS = [
     dict(name="cA", grid_n=3, n_mazes=3, ctor="gen_dfs", ctor_kwargs={}, seed=5, endpoint_kwargs={}, filters=[], thr=None),
     dict(name="cB", grid_n=4, n_mazes=6, ctor="gen_wilson", ctor_kwargs={}, seed=7, endpoint_kwargs={}, filters=[dict(name="path_length", args=[], kwargs=dict(min_length=4))], thr=None),
     dict(name="cC", grid_n=4, n_mazes=5, ctor="gen_dfs_percolation", ctor_kwargs=dict(p=0.2), seed=9, endpoint_kwargs=dict(endpoints_not_equal=True), filters=[], thr=2),
+    dict(name="cF", grid_n=4, n_mazes=10, ctor="gen_dfs", ctor_kwargs={}, seed=21, endpoint_kwargs={}, filters=[dict(name="path_length", args=[], kwargs=dict(min_length=6))], thr=None),
     dict(name="cE", grid_n=3, n_mazes=130, ctor="gen_dfs", ctor_kwargs={}, seed=13, endpoint_kwargs={}, filters=[], thr=None),
     dict(name="cD", grid_n=3, n_mazes=4, ctor="gen_dfs", ctor_kwargs=dict(do_forks=False), seed=11, endpoint_kwargs={}, filters=[dict(name="collect_generation_meta", args=[], kwargs={})], thr=None),
 ]
@@ -120,12 +121,37 @@ def _job(job):
     try:
         cfg = make_cfg(spec)
         ref = _digests(MazeDataset.from_config(make_cfg(spec), load_local=False, save_local=False, do_download=False))
-        MazeDataset.from_config(make_cfg(spec), local_base_path=Path(d), do_download=False)
-        (fn,) = [os.path.join(d, x) for x in os.listdir(d)]
+        first = MazeDataset.from_config(make_cfg(spec), local_base_path=Path(d), do_download=False)
+        # the cache file of a request is the documented name of the REQUESTED configuration (C18), wherever the code wrote something
+        fn = os.path.join(d, make_cfg(spec).to_fname() + ".zanj")
+        if not os.path.isfile(fn):
+            recs.append(dict(cfg=spec["name"], fault="absent", fault_detail=["cold_request_file"], read="none", generated=True, saved=True, outcome="data", dig=_digests(first), ref=ref, after_ok=False, second_ok=True))
+            return dict(cfg=spec["name"], size=0, nwrites=0, recs=recs, error=None)
         good = open(fn, "rb").read()
+        # sibling request: the same configuration asked for with n_mazes = the number of mazes that survived the filters must get
+        # ITS OWN dataset (n_mazes is the one field a cached file may differ in, so a file written under the wrong name would be served)
+        if len(first) != spec["n_mazes"] and len(first) > 0:
+            sib = dict(spec, n_mazes=len(first))
+            sref = _digests(MazeDataset.from_config(make_cfg(sib), load_local=False, save_local=False, do_download=False))
+            try:
+                got = MazeDataset.from_config(make_cfg(sib), local_base_path=Path(d), do_download=False)
+                so, sd = "data", _digests(got)
+            except Exception as e:  # noqa: BLE001
+                so, sd = "raise:" + type(e).__name__, []
+            sfn = os.path.join(d, make_cfg(sib).to_fname() + ".zanj")
+            s_after = False
+            try:
+                s_after = os.path.isfile(sfn) and _digests(MazeDataset.read(sfn)) == sref
+            except Exception:  # noqa: BLE001
+                pass
+            recs.append(dict(cfg=spec["name"], fault="absent", fault_detail=["sibling_request", len(first)], read="none", generated=True, saved=True, outcome=so, dig=sd, ref=sref, after_ok=bool(s_after), second_ok=True))
+            for x in os.listdir(d):
+                if os.path.join(d, x) != fn:
+                    os.remove(os.path.join(d, x))
         # number of low-level writes of one save
         os.remove(fn)
         zipfile.io.open = patched_open
+        state["df"] = None
         MazeDataset.from_config(make_cfg(spec), local_base_path=Path(d), do_download=False)
         nwrites = state["df"].n if state["df"] else 0
         zipfile.io.open = orig_open
